@@ -58,6 +58,8 @@ type api struct {
 	size    func() uint64
 	barrier func()
 	close   func()
+	// reinit points the process-wide wrappers at this disk again (global configurations only)
+	reinit func()
 }
 
 func openCfg(c c09cfg, path string, n uint64) (api, error) {
@@ -95,6 +97,7 @@ func openCfg(c c09cfg, path string, n uint64) (api, error) {
 			size:    func() uint64 { return disk.Size() },
 			barrier: func() { disk.Barrier() },
 			close:   func() { d.Close() },
+			reinit:  func() { disk.Init(d) },
 		}, nil
 	}
 	return api{read: d.Read, readTo: d.ReadTo, write: d.Write, size: d.Size, barrier: d.Barrier, close: d.Close}, nil
@@ -959,9 +962,11 @@ func runC09(r *core.Run) (bool, string) {
 		"each history is applied to all eight configurations {disk,async_disk}×{Mem,File}×{methods,global wrappers} and every result is compared with the model. " +
 		"Fleet layer (fleet_* keys), in the same worker processes after the lock-step histories: scenarios keeping up to six disks of different kinds and sizes alive at once, operations interleaved through methods and (for the disk last given to disk.Init) the global wrappers, disks closed and new ones created in between (smaller/equal/larger in-memory disks, file disks on a removed image path used before), each disk compared with its own model, the same address read on every other disk after each write; plus sparse file-backed disks of 2^19+1, 2^20+3 and 2^31+1 blocks (byte offsets beyond 2^31, 2^32, 2^43) with addresses around those boundaries. " +
 		"Refusal layer (refusal_* keys): per configuration, in a child process with a single goroutine and no timers, sequences 'refused operation(s) (every out-of-range address class under Read/ReadTo/Write, every wrong write-buffer length) then Size, Barrier, Read, ReadTo, Write+read-back on the SAME object', refusals in pairs, alternating with accepted calls, and seeded random mixtures, each call announced before it is made and compared with the model; " +
-		"a call that never returns is decided by the Go runtime's own 'all goroutines are asleep - deadlock!' report (the parent's wall-clock watchdog only yields inconclusive)")
+		"a call that never returns is decided by the Go runtime's own 'all goroutines are asleep - deadlock!' report (the parent's wall-clock watchdog only yields inconclusive). " +
+		"Length of the ReadTo buffer (readto_len_* keys): one ReadTo per case with a buffer of length {nil, 0, 1, 4095, 4096, 4097, 8192, seeded lengths below one / between one and two / above two blocks} × capacity {len, len+4096} × address {0, size-1, seeded in range, size, size+1, 2^32, 2^63, 2^64-1} on fully written disks of 1, 4 and 7 blocks, made on all eight configurations into identical dirty buffers: panic-or-not and every byte of the backing array afterwards must be the same on all eight (messages are not compared), an out-of-range address is refused for every length, a 4096-byte buffer gets the block, and the disks read back unchanged. " +
+		"Size a disk is opened with (open_size_* keys): {disk,async_disk}.NewFileDisk over an absent path / an image of 3 / of 10 written blocks and {disk,async_disk}.NewMemDisk with n around the prior size, 2^19, 2^20, 2^31, 2^32, 2^51 (n*4096 leaves int64), 2^52 (n*4096 wraps uint64), q*2^52+k for q in {1,2,3,4095,seeded} and small k (the product wraps to k blocks), 2^63, 2^64-1, one child process per case under RLIMIT_FSIZE 64 MiB with SIGXFSZ ignored (file) / RLIMIT_AS 2 GiB (memory): the open fails (error, panic, the runtime's out-of-memory report) and an existing image is byte-identical afterwards, or it succeeds and Size() = n, the image is exactly n*4096 bytes, prior blocks below n are kept, the first block beyond reads zero and a Write to n-1 is read back and changes no other probed address")
 	r.Assume("async_disk has no package-level wrappers; its 'global' configuration passes the async_disk-constructed disk to disk.Init and uses package disk's wrappers (ReadTo, which has no wrapper, through disk.Get())")
-	r.Assume("ReadTo is only called with 4096-byte buffers (other sizes are outside the statement)")
+	r.Assume("in the histories ReadTo is called with 4096-byte buffers; for other lengths the statement only demands that all implementations behave identically and that out-of-range addresses are refused (readto_len_* family)")
 	r.Assume("panics are compared by occurrence, not message")
 	self, err := os.Executable()
 	if err != nil {
@@ -1039,6 +1044,8 @@ func runC09(r *core.Run) (bool, string) {
 		}
 	}
 	c09Refusal(r)
+	c09ReadToLen(r)
+	c09OpenSize(r)
 	classes := map[string]int64{}
 	for _, wr := range results {
 		if wr == nil {
@@ -1089,6 +1096,9 @@ func runC09(r *core.Run) (bool, string) {
 	}
 	if r.GetCount("fleet_calls_with_several_disks_alive") < 2000 || r.GetCount("fleet_cross_disk_probes") < 500 || r.GetCount("fleet_calls_via_global") < 300 {
 		return false, "fleet layer: too few calls with several disks alive / cross-disk probes / calls through the global wrappers"
+	}
+	if r.NumViolations() == 0 && (r.GetCount("readto_len_cases") < 100 || r.GetCount("readto_len_cases_refused_by_all_configurations") < 20 || r.GetCount("open_size_cases") < 100 || r.GetCount("open_size_refused_opens_with_the_existing_image_compared") < 20 || r.GetCount("open_size_successful_opens_probed") < 10) {
+		return false, "ReadTo buffer-length family: fewer than 100 cases or fewer than 20 refused everywhere; open-size family: fewer than 100 cases, fewer than 20 refused opens over an existing image, or fewer than 10 successful opens probed"
 	}
 	return r.Evals() >= 20000, "too few compared calls"
 }
